@@ -68,6 +68,9 @@ var harness = &simcore.Harness{
 func genConfig(rng *simcore.RNG, env *simcore.Env) simcore.Op {
 	c := simcore.Op{}
 	c["ver"] = rng.Intn(2)
+	if v := os.Getenv("MEMPOOLSIM_VER"); v == "0" || v == "1" {
+		c["ver"] = int(v[0] - '0') // development aid (sensitivity runs against one version); never set by the runner
+	}
 	size := rng.Range(1, 8)
 	c["size"] = size
 	switch rng.Intn(5) {
@@ -156,6 +159,7 @@ type request struct {
 	ch     chan *abci.ResponseCheckTx // sync request (v1)
 	done   chan struct{}              // FlushSync
 	tag    string                     // C05: when was it requested: idle | inflush | window
+	epoch  int64                      // number of finished commits when it was requested
 	arrive int
 }
 
@@ -188,6 +192,7 @@ func (c *simConn) Error() error { return nil }
 
 func (c *simConn) enqueue(r *request) {
 	r.tag = c.s.phaseTag()
+	r.epoch = c.s.commitsDone.Load()
 	c.mu.Lock()
 	r.arrive = c.nArrive
 	c.nArrive++
@@ -366,6 +371,7 @@ type sim struct {
 	commitGate   chan struct{}
 	commitParked atomic.Bool
 	closing      atomic.Bool
+	commitsDone  atomic.Int64
 
 	// driver only
 	risk     bool // some goroutine may be blocked on a mutex: introspective settle
@@ -380,11 +386,13 @@ type sim struct {
 	tracked  map[int]*track
 	admit    []int           // txs with an accepting New response since the last observation, in delivery order
 	admitV   map[int]verdict // their verdicts
-	admitCom map[int]bool    // accepted New response delivered since the running/last commit started
+	admitCom map[int]bool    // v1: accepting New response delivered while the commit actor held the lock: applied after the update
 	delivNew map[int]bool    // New responses delivered since the last observation
 	justCom  []int           // block of the commit that finished since the last observation
 	lru      *lruModel
 	comRem   map[int]bool // committed with code OK and still remembered by the reference LRU
+	comAt    map[int]int64 // number of finished commits when it was last committed
+	admitEp  map[int]int64 // epoch of the request whose accepting response was delivered last
 	nUpdates int
 	commitErr error
 	tainted   bool // a known duplicate-class finding was hit: C12 oracles are off for the rest of the run
@@ -394,7 +402,7 @@ type sim struct {
 func newSim(env *simcore.Env, cfg simcore.Op) simcore.Sim {
 	s := &sim{env: env, cfg: cfg, ver: cfg.Int("ver"), index: map[string]int{}, committedOK: map[int]bool{},
 		tracked: map[int]*track{}, admitV: map[int]verdict{}, admitCom: map[int]bool{}, delivNew: map[int]bool{},
-		comRem: map[int]bool{}, dupSuspect: map[int]int{}, opsLeft: cfg.Int("nops"), commitGate: make(chan struct{})}
+		comRem: map[int]bool{}, comAt: map[int]int64{}, admitEp: map[int]int64{}, dupSuspect: map[int]int{}, opsLeft: cfg.Int("nops"), commitGate: make(chan struct{})}
 	s.vn = fmt.Sprintf("v%d", s.ver)
 	for i, n := range cfg.Ints("lens") {
 		if n < 1 {
@@ -610,7 +618,6 @@ func (s *sim) lruPush(x int) {
 // ---------------------------------------------------------------- settle
 
 var stackBuf = make([]byte, 1<<17)
-var lastDump string
 
 // scanBubble classifies the goroutines of the caller's bubble (other than the caller):
 // busy = running/runnable/anything not known to be blocked, mutexW = blocked on a sync mutex.
@@ -620,9 +627,6 @@ func scanBubble() (busy, mutexW int) {
 		n := runtime.Stack(stackBuf, true)
 		if n < len(stackBuf) {
 			b = stackBuf[:n]
-			if os.Getenv("MSIM_DEBUG") != "" {
-				lastDump = string(b)
-			}
 			break
 		}
 		stackBuf = make([]byte, 2*len(stackBuf))
@@ -655,10 +659,18 @@ func scanBubble() (busy, mutexW int) {
 			my = tag
 			continue
 		}
+		st := parts[0]
 		if my == "" || tag != my {
+			// A goroutine of the bubble that starts a GC cycle or assists the GC is taken out of
+			// its bubble for that time (runtime.gcStart, gcAssistAlloc) and shows up without the
+			// tag, runnable or waiting for a runtime semaphore. So a goroutine outside the bubble
+			// counts as busy unless it is parked in one of the states the process's idle
+			// goroutines (test main, signal loop, watchdog) sit in.
+			if tag == "" && !idleOutside(st) {
+				busy++
+			}
 			continue
 		}
-		st := parts[0]
 		switch {
 		case strings.HasPrefix(st, "sync.Mutex.Lock"), strings.HasPrefix(st, "sync.RWMutex.RLock"), strings.HasPrefix(st, "sync.RWMutex.Lock"):
 			mutexW++
@@ -672,6 +684,17 @@ func scanBubble() (busy, mutexW int) {
 		}
 	}
 	return
+}
+
+func idleOutside(st string) bool {
+	for _, p := range []string{"chan receive", "chan send", "select", "syscall", "sleep", "IO wait", "sync.Cond.Wait",
+		"sync.WaitGroup.Wait", "finalizer wait", "cleanup wait", "GC worker (idle)", "GC sweep wait", "GC scavenge wait",
+		"force gc (idle)", "trace reader (blocked)", "synctest.Run", "synctest.Wait"} {
+		if strings.HasPrefix(st, p) {
+			return true
+		}
+	}
+	return false
 }
 
 // settle waits until the goroutine chain woken by the last stimulus has come to rest.
@@ -689,16 +712,6 @@ func (s *sim) settle() {
 		busy, mw := scanBubble()
 		if busy == 0 {
 			s.mutexW = mw
-			if os.Getenv("MSIM_DEBUG") != "" {
-				d0 := lastDump
-				for k := 0; k < 200; k++ {
-					runtime.Gosched()
-					if b2, _ := scanBubble(); b2 > 0 {
-						fmt.Fprintf(os.Stderr, "ANOMALY quiet then busy (k=%d)\n--- quiet dump\n%s\n--- busy dump\n%s\n", k, d0, lastDump)
-						break
-					}
-				}
-			}
 			break
 		}
 		if i > 5_000_000 {
@@ -872,9 +885,6 @@ func (s *sim) Apply(op simcore.Op) bool {
 			a.err = s.mp.CheckTx(tx, nil, info)
 		}()
 		s.settle()
-		if os.Getenv("MSIM_DEBUG") != "" && s.ver == 0 && !a.done.Load() && s.mutexW == 0 {
-			fmt.Fprintf(os.Stderr, "ANOMALY risk=%v\n%s\n", s.risk, lastDump)
-		}
 		e.Count("op.sub")
 		if s.mutexW > 0 {
 			e.Count("probe.submit_blocked_on_commit_lock")
@@ -1044,7 +1054,11 @@ func (s *sim) deliverHead() {
 			}
 			s.admit = append(s.admit, r.txi)
 			s.admitV[r.txi] = v
-			s.admitCom[r.txi] = true
+			s.admitEp[r.txi] = r.epoch
+			if s.ver == 1 && s.commitParked.Load() {
+				// the caller will wait for the mempool lock and insert after the update
+				s.admitCom[r.txi] = true
+			}
 		}
 		if !v.ok && !s.cfg.Bool("keep_invalid") {
 			// certain: an invalid transaction is dropped from the cache
@@ -1120,6 +1134,10 @@ func (s *sim) commitFinished() bool {
 	s.reqPhase = false
 	s.mu.Unlock()
 	s.commits++
+	s.commitsDone.Add(1)
+	for _, i := range c.txs {
+		s.comAt[i] = s.commitsDone.Load()
+	}
 	s.nUpdates++
 	s.env.Count("probe.commit_done")
 	s.env.Logf(" commit of height %d done, app version %d", s.height, s.appVersion())
@@ -1315,7 +1333,7 @@ func (s *sim) observe() {
 					return
 				}
 			} else if s.admitCom[i] {
-				e.Fail("C12", s.vn+"-committed-tx-readmitted", "%s: tx%d was committed at height %d and is in the pool afterwards (its CheckTx was in flight across the commit)", s.vn, i, s.height)
+				e.Fail("C12", s.vn+"-committed-tx-readmitted-inflight", "%s: tx%d was committed at height %d and is in the pool afterwards (its CheckTx was answered while the commit held the lock and was applied after the update)", s.vn, i, s.height)
 			} else {
 				e.Fail("C12", s.vn+"-committed-tx-present", "%s: tx%d was committed at height %d and is still in the pool", s.vn, i, s.height)
 			}
@@ -1325,7 +1343,11 @@ func (s *sim) observe() {
 	// ... and not re-admitted while the cache remembers it
 	for _, i := range idx {
 		if s.comRem[i] && s.lru.has(i) {
-			e.Fail("C12", s.vn+"-committed-tx-readmitted", "%s: tx%d was committed, is still within the %d most recently used cache entries %v, and is in the pool again", s.vn, i, s.lru.cap, s.lru.order)
+			if ep, ok := s.admitEp[i]; ok && ep < s.comAt[i] {
+				e.Fail("C12", s.vn+"-committed-tx-readmitted-inflight", "%s: tx%d was committed, is still within the %d most recently used cache entries %v, and is in the pool again: its CheckTx was requested before that commit finished and answered after the update", s.vn, i, s.lru.cap, s.lru.order)
+			} else {
+				e.Fail("C12", s.vn+"-committed-tx-readmitted", "%s: tx%d was committed, is still within the %d most recently used cache entries %v, and is in the pool again", s.vn, i, s.lru.cap, s.lru.order)
+			}
 			delete(s.comRem, i)
 		}
 	}
